@@ -265,7 +265,7 @@ FALLBACK = {
 NOT_APPLICABLE = [
     {"property_id": "C08", "reason": "quantifies over thread schedules and liveness (no deadlock, ticker thread stops promptly); Kani has no threads, Verus cannot reason about std Mutex/RwLock/Condvar/thread::spawn, and per-call contracts cannot express 'cannot block forever' (DESIGN.md section 6)"},
 ]
-NOTES = "Every check: ./check <id> --tier quick|thorough; exit 0 held / 1 VIOLATION / 2 undecided (drift, unsupported construct, resource limit, vacuity canary - never an alarm). Known findings: /verif/known_findings.json."
+NOTES = "Every check: ./check <id> --tier quick|thorough; exit 0 held / 1 VIOLATION / 2 undecided (drift, unsupported construct, resource limit, vacuity canary - never an alarm). A unit that cannot be extracted from the current tree falls back to bounded routines on the real code, which can only add a VIOLATION with a replayable input; the thorough tier adds the Kani harnesses (C07, C13, C19) and runs the same bounded routines as a check of the modelling assumptions. Known findings: /verif/known_findings.json."
 
 
 def _verified_in():
